@@ -632,3 +632,152 @@ Proof.
   destruct p as [|[]]; try congruence;
     destruct k; try congruence; destruct enc, dict, noindex; vm_compute; split; congruence.
 Qed.
+
+(** * The full 32-bit comparison is necessary: any tolerated difference is reachable by a four-byte change *)
+
+Lemma bounded_testbit s k : bounded s -> 32 <= k -> N.testbit s k = false.
+Proof.
+  intros H Hk. unfold bounded in H.
+  replace k with ((k - 32) + 32) by lia. rewrite <- N.shiftr_spec', H. apply N.bits_0.
+Qed.
+
+Lemma bounded_of_bits s : (forall k, 32 <= k -> N.testbit s k = false) -> bounded s.
+Proof.
+  intros H. unfold bounded. apply N.bits_inj. intro k.
+  rewrite N.bits_0, N.shiftr_spec'. apply H. lia.
+Qed.
+
+Lemma poly_bounded : bounded poly.
+Proof. reflexivity. Qed.
+
+Lemma inv_step0_bounded s : bounded s -> bounded (inv_step0 s).
+Proof.
+  intros Hs. unfold inv_step0. apply bounded_of_bits. intros k Hk.
+  destruct (N.testbit s 31) eqn:H31.
+  - rewrite N.lor_spec.
+    assert (N.testbit 1 k = false) as -> by (apply (bounded_testbit 1); [reflexivity|exact Hk]).
+    rewrite orb_false_r, N.shiftl_spec_high' by lia. rewrite N.lxor_spec.
+    destruct (N.eq_dec k 32) as [->|Hne].
+    + change (32 - 1) with 31. rewrite H31. reflexivity.
+    + rewrite (bounded_testbit s), (bounded_testbit poly) by (try exact Hs; try exact poly_bounded; lia).
+      reflexivity.
+  - rewrite N.shiftl_spec_high' by lia.
+    destruct (N.eq_dec k 32) as [->|Hne].
+    + exact H31.
+    + apply bounded_testbit; [exact Hs|lia].
+Qed.
+
+Lemma step0_inv_step0 s : step0 (inv_step0 s) = s.
+Proof.
+  unfold inv_step0. destruct (N.testbit s 31) eqn:H31.
+  - unfold step0.
+    assert (N.odd (N.lor (N.shiftl (N.lxor s poly) 1) 1) = true) as ->.
+    { rewrite <- N.bit0_odd, N.lor_spec, N.shiftl_spec_low by lia. reflexivity. }
+    assert (N.shiftr (N.lor (N.shiftl (N.lxor s poly) 1) 1) 1 = N.lxor s poly) as ->.
+    { rewrite N.shiftr_lor, N.shiftr_shiftl_l by lia. change (N.shiftr 1 1) with 0.
+      rewrite N.lor_0_r. apply N.shiftl_0_r. }
+    rewrite N.lxor_assoc, N.lxor_nilpotent. apply N.lxor_0_r.
+  - apply step0_shiftl1.
+Qed.
+
+Lemma iter_step0_inv n s : Nat.iter n step0 (Nat.iter n inv_step0 s) = s.
+Proof.
+  induction n as [|n IH]; [reflexivity|].
+  rewrite iter_S_r. rewrite iter_S. rewrite step0_inv_step0. exact IH.
+Qed.
+
+Lemma iter_inv_bounded n s : bounded s -> bounded (Nat.iter n inv_step0 s).
+Proof. intros H. induction n as [|n IH]; [exact H|]. rewrite iter_S. now apply inv_step0_bounded. Qed.
+
+
+Lemma land255_lt x : N.land x 255 < 256.
+Proof.
+  apply (proj2 (lt_pow2_shiftr _ 8)). apply N.bits_inj. intro k.
+  rewrite N.bits_0, N.shiftr_spec', N.land_spec.
+  assert (N.testbit 255 (k + 8) = false) as ->; [|apply andb_false_r].
+  apply N.bits_above_log2. change (N.log2 255) with 7. lia.
+Qed.
+
+Lemma is_bytes_le32 x : is_bytes (le32_bytes x).
+Proof. unfold le32_bytes, is_bytes. repeat constructor; apply land255_lt. Qed.
+
+Lemma testbit_255 j : N.testbit 255 j = (j <? 8).
+Proof.
+  destruct (N.ltb_spec j 8) as [H|H].
+  - assert (j = 0 \/ j = 1 \/ j = 2 \/ j = 3 \/ j = 4 \/ j = 5 \/ j = 6 \/ j = 7) as Hj by lia.
+    destruct Hj as [->|[->|[->|[->|[->|[->|[->| ->]]]]]]]; reflexivity.
+  - apply N.bits_above_log2. change (N.log2 255) with 7. lia.
+Qed.
+
+Lemma le_num_le32 x : bounded x -> le_num (le32_bytes x) = x.
+Proof.
+  intros Hx. unfold le32_bytes. cbn [le_num]. apply N.bits_inj. intro k.
+  rewrite !N.lxor_spec, !N.land_spec, !testbit_255.
+  destruct (N.ltb_spec k 8) as [H8|H8].
+  { rewrite !N.shiftl_spec_low by lia. rewrite andb_true_r. now rewrite !xorb_false_r. }
+  rewrite andb_false_r, xorb_false_l, N.shiftl_spec_high' by lia.
+  rewrite !N.lxor_spec, !N.land_spec, !testbit_255, N.shiftr_spec'.
+  destruct (N.ltb_spec (k - 8) 8) as [H16|H16].
+  { rewrite !N.shiftl_spec_low by lia. rewrite andb_true_r, !xorb_false_r. f_equal. lia. }
+  rewrite andb_false_r, xorb_false_l, N.shiftl_spec_high' by lia.
+  rewrite !N.lxor_spec, !N.land_spec, !testbit_255, N.shiftr_spec'.
+  destruct (N.ltb_spec (k - 8 - 8) 8) as [H24|H24].
+  { rewrite !N.shiftl_spec_low by lia. rewrite andb_true_r, !xorb_false_r. f_equal. lia. }
+  rewrite andb_false_r, xorb_false_l, N.shiftl_spec_high' by lia.
+  rewrite !N.lxor_spec, !N.land_spec, !testbit_255, N.shiftr_spec'.
+  rewrite N.shiftl_0_l, N.bits_0, xorb_false_r.
+  destruct (N.ltb_spec (k - 8 - 8 - 8) 8) as [H32|H32].
+  { rewrite andb_true_r. f_equal. lia. }
+  rewrite andb_false_r. symmetry. apply bounded_testbit; [exact Hx|lia].
+Qed.
+
+Lemma update_zeros n : update 0 (repeat 0 n) = 0.
+Proof.
+  rewrite update_le, N.lxor_0_l.
+  assert (le_num (repeat 0 n) = 0) as ->.
+  { induction n as [|n IH]; [reflexivity|]. cbn [repeat le_num]. rewrite IH. reflexivity. }
+  apply iter_step0_0.
+Qed.
+
+(** the change of the last four bytes whose checksum difference is exactly [d] *)
+
+Theorem crc_suffix_fault pre w d :
+  length w = 4%nat -> bounded d ->
+  crc32 (pre ++ xor_bytes w (suffix_fault d)) = N.lxor (crc32 (pre ++ w)) d.
+Proof.
+  intros Hw Hd.
+  set (e := suffix_fault d).
+  assert (He : length e = 4%nat) by reflexivity.
+  assert (Hx : pre ++ xor_bytes w e = xor_bytes (pre ++ w) (repeat 0 (length pre) ++ e)).
+  { rewrite xor_bytes_app by (now rewrite repeat_length). now rewrite xor_bytes_zeros. }
+  rewrite Hx.
+  pose proof (crc32_diff (pre ++ w) (repeat 0 (length pre) ++ e)) as Hdiff.
+  rewrite !app_length, repeat_length, Hw, He in Hdiff. specialize (Hdiff eq_refl).
+  rewrite update_app, update_zeros, update_le, N.lxor_0_l, He in Hdiff.
+  unfold e in Hdiff at 2. unfold suffix_fault in Hdiff.
+  rewrite le_num_le32 in Hdiff by (apply iter_inv_bounded; exact Hd).
+  change (8 * 4)%nat with 32%nat in Hdiff. rewrite iter_step0_inv in Hdiff.
+  rewrite <- Hdiff. rewrite N.lxor_comm, N.lxor_assoc, N.lxor_nilpotent. symmetry. apply N.lxor_0_r.
+Qed.
+
+(** Consequence: a reader that tolerates ANY non-zero difference [d] between
+    the stored checksum and the checksum of the body lets an altered body
+    through: the altered body differs in its last four bytes only (a burst of
+    at most 32 bits), and its checksum is the stored one xor [d]. *)
+Theorem weaker_comparison_lets_a_burst_through pre w d :
+  length w = 4%nat -> is_bytes w -> bounded d -> d <> 0 ->
+  let body := pre ++ w in
+  let body' := pre ++ xor_bytes w (suffix_fault d) in
+  body' <> body /\ length body' = length body /\
+  N.lxor (crc32 body') (crc32 body) = d.
+Proof.
+  intros Hw Hb Hd Hnz body body'. unfold body, body'.
+  pose proof (crc_suffix_fault pre w d Hw Hd) as H.
+  split; [|split].
+  - intro Heq. rewrite Heq in H. apply Hnz.
+    assert (N.lxor (crc32 (pre ++ w)) (crc32 (pre ++ w)) = N.lxor (crc32 (pre ++ w)) (N.lxor (crc32 (pre ++ w)) d)) as H2
+      by (rewrite <- H; reflexivity).
+    rewrite <- N.lxor_assoc, N.lxor_nilpotent, N.lxor_0_l in H2. symmetry. exact H2.
+  - rewrite !app_length. f_equal. apply xor_bytes_length. rewrite Hw. reflexivity.
+  - rewrite H. rewrite N.lxor_comm, <- N.lxor_assoc, N.lxor_nilpotent. apply N.lxor_0_l.
+Qed.
